@@ -1,29 +1,16 @@
-(* GENERATED by harness/cmd/c03 gen from the switch statements on the result of
-   cbor.DecodeIdFromList in the UnmarshalCBOR methods named below.  Do not edit. *)
+(* C03 - specification tables for EVERY tagged-sum dispatch of the repository
+   (second round).  Hand-maintained.  Unlike C03.Model.spec_tables (written from
+   the CDDL), these tables were transcribed from the pinned Go source and its
+   constant names (ledger/error.go failure constructors follow the cardano-ledger
+   constructor order quoted in the Go comments): they pin the dispatch, so that any
+   later change of a case label, of a target type or of an idMap entry breaks
+   C03_tables_all and names the family and id.  NO proofs here. *)
 From Coq Require Import String.
 From V Require Import Lib.Base.
 Local Open Scope string_scope.
 Local Open Scope N_scope.
 
-Definition gen_tables : list (string * list (N * string)) := [
-  (* ledger/common.NativeScript.UnmarshalCBOR *)
-  ("native-script", [(0, "NativeScriptPubkey"); (1, "NativeScriptAll"); (2, "NativeScriptAny"); (3, "NativeScriptNofK"); (4, "NativeScriptInvalidBefore"); (5, "NativeScriptInvalidHereafter"); (6, "NativeScriptRequireGuard")]);
-  (* ledger/common.CertificateWrapper.UnmarshalCBOR *)
-  ("certificate", [(0, "StakeRegistrationCertificate"); (1, "StakeDeregistrationCertificate"); (2, "StakeDelegationCertificate"); (3, "PoolRegistrationCertificate"); (4, "PoolRetirementCertificate"); (5, "GenesisKeyDelegationCertificate"); (6, "MoveInstantaneousRewardsCertificate"); (7, "RegistrationCertificate"); (8, "DeregistrationCertificate"); (9, "VoteDelegationCertificate"); (10, "StakeVoteDelegationCertificate"); (11, "StakeRegistrationDelegationCertificate"); (12, "VoteRegistrationDelegationCertificate"); (13, "StakeVoteRegistrationDelegationCertificate"); (14, "AuthCommitteeHotCertificate"); (15, "ResignCommitteeColdCertificate"); (16, "RegistrationDrepCertificate"); (17, "DeregistrationDrepCertificate"); (18, "UpdateDrepCertificate")]);
-  (* ledger/common.Nonce.UnmarshalCBOR *)
-  ("nonce", [(0, "NonceTypeNeutral"); (1, "NonceTypeNonce")]);
-  (* ledger/common.Drep.UnmarshalCBOR *)
-  ("drep", [(0, "DrepTypeAddrKeyHash"); (1, "DrepTypeScriptHash"); (2, "DrepTypeAbstain"); (3, "DrepTypeNoConfidence")]);
-  (* ledger/conway.ConwayGovAction.UnmarshalCBOR *)
-  ("gov-action", [(0, "ConwayParameterChangeGovAction"); (1, "HardForkInitiationGovAction"); (2, "TreasuryWithdrawalGovAction"); (3, "NoConfidenceGovAction"); (4, "UpdateCommitteeGovAction"); (5, "NewConstitutionGovAction"); (6, "InfoGovAction")]);
-  (* protocol/peersharing.PeerAddress.UnmarshalCBOR *)
-  ("peer-address", [(0, "0"); (1, "1")]);
-  (* ledger/babbage.BabbageTransactionOutputDatumOption.UnmarshalCBOR *)
-  ("datum-option", [(0, "DatumOptionTypeHash"); (1, "DatumOptionTypeData")])
-].
-
-(* every switch over an id from cbor.DecodeIdFromList and every int-keyed idMap in the repository *)
-Definition gen_tables_all : list (string * list (N * string)) := [
+Definition spec_tables_all : list (string * list (N * string)) := [
   ("ledger.AlonzoUtxowFailure.UnmarshalCBOR", [(0, "ShelleyUtxowFailure"); (1, "MissingRedeemers"); (2, "MissingRequiredDatums"); (3, "NotAllowedSupplementalDatums"); (4, "PPViewHashesDontMatch"); (6, "UnspendableUTxONoDatumHash"); (7, "ExtraRedeemers")]);
   ("ledger.ApplyTxError.UnmarshalCBOR", [(0, "UtxowFailure")]);
   ("ledger.BabbageUtxoFailure.UnmarshalCBOR", [(1, "UtxoFailure"); (2, "IncorrectTotalCollateralField"); (3, "BabbageOutputTooSmallUTxO"); (4, "BabbageNonDisjointRefInputs")]);
@@ -60,27 +47,36 @@ Definition gen_tables_all : list (string * list (N * string)) := [
   ("protocol/peersharing.PeerAddress.UnmarshalCBOR", [(0, "0"); (1, "1")])
 ].
 
-(* every function that calls DecodeIdFromList / DecodeById, with the number of tables translated from it *)
-Definition gen_sites : list (string * N) := [
-  ("ledger.AlonzoUtxowFailure.UnmarshalCBOR", 1);
-  ("ledger.ApplyTxError.UnmarshalCBOR", 1);
-  ("ledger.BabbageUtxoFailure.UnmarshalCBOR", 1);
-  ("ledger.ConwayUtxowFailure.UnmarshalCBOR", 1);
-  ("ledger.ShelleyUtxowFailure.UnmarshalCBOR", 1);
-  ("ledger.UtxoFailure.UnmarshalCBOR", 0);
-  ("ledger.UtxowFailure.UnmarshalCBOR", 5);
-  ("ledger/babbage.BabbageTransactionOutputDatumOption.UnmarshalCBOR", 1);
-  ("ledger/byron.ByronTransactionInput.UnmarshalCBOR", 1);
-  ("ledger/common.CertificateWrapper.UnmarshalCBOR", 1);
-  ("ledger/common.Drep.UnmarshalCBOR", 1);
-  ("ledger/common.NativeScript.UnmarshalCBOR", 1);
-  ("ledger/common.Nonce.UnmarshalCBOR", 1);
-  ("ledger/common.PoolRelay.UnmarshalCBOR", 1);
-  ("ledger/conway.ConwayGovAction.UnmarshalCBOR", 1);
-  ("ledger/dijkstra.DijkstraGovAction.UnmarshalCBOR", 1);
-  ("protocol/localstatequery.HotCredAuthStatusValue.UnmarshalCBOR", 1);
-  ("protocol/localstatequery.RelayAccessPoint.UnmarshalCBOR", 1);
-  ("protocol/localstatequery.WithOriginSlot.UnmarshalCBOR", 1);
-  ("protocol/localstatequery.decodeQuery", 0);
-  ("protocol/peersharing.PeerAddress.UnmarshalCBOR", 1)
+(* every function that may call cbor.DecodeIdFromList / cbor.DecodeById; a call
+   from any other function makes C03_sites fail until it is reviewed and listed *)
+Definition known_sites : list string := [
+  "ledger.AlonzoUtxowFailure.UnmarshalCBOR";
+  "ledger.ApplyTxError.UnmarshalCBOR";
+  "ledger.BabbageUtxoFailure.UnmarshalCBOR";
+  "ledger.ConwayUtxowFailure.UnmarshalCBOR";
+  "ledger.ShelleyUtxowFailure.UnmarshalCBOR";
+  "ledger.UtxoFailure.UnmarshalCBOR";
+  "ledger.UtxowFailure.UnmarshalCBOR";
+  "ledger/babbage.BabbageTransactionOutputDatumOption.UnmarshalCBOR";
+  "ledger/byron.ByronTransactionInput.UnmarshalCBOR";
+  "ledger/common.CertificateWrapper.UnmarshalCBOR";
+  "ledger/common.Drep.UnmarshalCBOR";
+  "ledger/common.NativeScript.UnmarshalCBOR";
+  "ledger/common.Nonce.UnmarshalCBOR";
+  "ledger/common.PoolRelay.UnmarshalCBOR";
+  "ledger/conway.ConwayGovAction.UnmarshalCBOR";
+  "ledger/dijkstra.DijkstraGovAction.UnmarshalCBOR";
+  "protocol/localstatequery.HotCredAuthStatusValue.UnmarshalCBOR";
+  "protocol/localstatequery.RelayAccessPoint.UnmarshalCBOR";
+  "protocol/localstatequery.WithOriginSlot.UnmarshalCBOR";
+  "protocol/localstatequery.decodeQuery";
+  "protocol/peersharing.PeerAddress.UnmarshalCBOR"
+].
+
+(* sites whose dispatch table is not in the function itself, and where it is *)
+Definition indirect_sites : list (string * string) := [
+  ("ledger.UtxoFailure.UnmarshalCBOR",
+   "DecodeById over the idMap of ledger.getEraSpecificUtxoFailureConstants: tables #baseMap, #baseMap+EraIdAlonzo, #baseMap+EraIdBabbage, #conwayMap, #dijkstraMap, #shelleyMap, #allegraMaryMap");
+  ("protocol/localstatequery.decodeQuery",
+   "loop over the idMap passed by the caller: QueryWrapper/BlockQuery/HardForkQuery.UnmarshalCBOR#0 and shelleyQueryTypes#0")
 ].
